@@ -73,7 +73,7 @@ func LoadKnown(path string) (*KnownFile, error) {
 // confirmed by hand on the reference tree. The threshold is two thirds of that count (a restructuring that merges a few
 // copy-pasted instances into a helper is not a reason to distrust the rule; losing a third of them is).
 func Floor(rule string, props []string, what string, got, min int) []Obligation {
-	thr := (2*min + 2) / 3
+	thr := 2 * min / 3
 	if thr < 1 {
 		thr = 1
 	}
